@@ -105,12 +105,7 @@ public:
 	*/
 	bool operator==(const Set& s) const
 	{
-		if(this->length() != s.length())
-			return false;
-		Enumerator e1 = this->all(), e2 = s.all();
-		for(; e1; ++e1, ++e2)
-			if(*e1 != *e2) return false;
-		return true;
+		return this->length() == s.length() && contains(s);
 	}
 	/**
 	Returns true if both sets don't have the same items
